@@ -1,0 +1,44 @@
+//go:build verif
+
+package keeper
+
+// Contracts for the deductive verifier in /verif (govc). Comment-only; compiled only with -tags verif.
+
+// ---- controller side of the interchain-accounts channel handshake (C38)
+
+//@ contract (*Keeper).OnChanOpenInit
+//@   let activeID = nth(k.GetActiveChannelID(ctx, connectionHops[0], portID), 0)
+//@   let hasActive = nth(k.GetActiveChannelID(ctx, connectionHops[0], portID), 1)
+//@   let ch = icaChannelOf(world(ctx), portID, activeID)
+//@   ensures controller_port: err == nil ==> hasPrefix(portID, icatypes.ControllerPortPrefix)
+//@   ensures host_counterparty: err == nil ==> counterparty.PortId == icatypes.HostPortID
+//@   ensures reopen_only_after_closed: err == nil && hasActive ==> ch.State == channeltypes.CLOSED
+//@   ensures reopen_same_ordering: err == nil && hasActive ==> ch.Ordering == order
+
+//@ contract (*Keeper).OnChanOpenAck
+//@   let md = nth(icatypes.MetadataFromVersion(counterpartyVersion), 0)
+//@   let S0 = store(ctx)
+//@   let activeID = nth(k.GetActiveChannelID(ctx, md.ControllerConnectionId, portID), 0)
+//@   let hasActive = nth(k.GetActiveChannelID(ctx, md.ControllerConnectionId, portID), 1)
+//@   let ch = icaChannelOf(world(ctx), portID, activeID)
+//@   let chFound = icaHasChannel(world(ctx), portID, activeID)
+//@   modifies world(ctx)
+//@   ensures controller_port: err == nil ==> hasPrefix(portID, icatypes.ControllerPortPrefix) && portID != icatypes.HostPortID
+//@   ensures no_open_active_channel: err == nil ==> !(hasActive && chFound && ch.State == channeltypes.OPEN)
+//@   ensures becomes_active: err == nil ==> store(ctx) == set(set(S0, icatypes.KeyActiveChannel(portID, md.ControllerConnectionId), channelID), icatypes.KeyOwnerAccount(portID, md.ControllerConnectionId), md.Address)
+//@   ensures address_not_blank: err == nil ==> strings.TrimSpace(md.Address) != ""
+//@   ensures fail_unchanged: err != nil ==> world(ctx) == old(world(ctx))
+
+// ---- owner-only sends: the port a transaction is sent on is derived from the message's owner (= its signer)
+
+//@ spec func IcaTxSent(connectionID string, portID string, data icatypes.InterchainAccountPacketData, timeout int) bool
+
+//@ contract (*Keeper).sendTx
+//@   trusted packet construction and the ICS-4 send are outside this check; specified by the ghost predicate IcaTxSent, which only this function establishes
+//@   modifies world(ctx)
+//@   ensures err == nil ==> IcaTxSent(connectionID, portID, icaPacketData, timeoutTimestamp)
+
+//@ contract (msgServer).SendTx
+//@   modifies world(goCtx)
+//@   ensures owner_port_only: err == nil ==> exists t int :: IcaTxSent(msg.ConnectionId, icatypes.ControllerPortPrefix + msg.Owner, msg.PacketData, t)
+//@   ensures blank_owner_rejected: strings.TrimSpace(msg.Owner) == "" ==> err != nil && world(goCtx) == old(world(goCtx))
